@@ -1,0 +1,156 @@
+//go:build verif
+
+// Bounded stand-in for C06 on column-stored sequences (alignment.Seq, alignment.QSeq): the result of Truncate,
+// Stitch and Join into a different destination shares no storage with the source - overwriting every letter of
+// the result leaves the source as it was. External test package: seq/alignment imports sequtils.
+package sequtils_test
+
+import (
+	"fmt"
+	"testing"
+
+	"github.com/biogo/biogo/alphabet"
+	"github.com/biogo/biogo/feat"
+	"github.com/biogo/biogo/seq"
+	"github.com/biogo/biogo/seq/alignment"
+	"github.com/biogo/biogo/seq/sequtils"
+)
+
+type verifColFeat struct{ s, e int }
+
+func (f verifColFeat) Start() int             { return f.s }
+func (f verifColFeat) End() int               { return f.e }
+func (f verifColFeat) Len() int               { return f.e - f.s }
+func (f verifColFeat) Name() string           { return "" }
+func (f verifColFeat) Description() string    { return "" }
+func (f verifColFeat) Location() feat.Feature { return nil }
+
+type verifColSet []feat.Feature
+
+func (s verifColSet) Features() []feat.Feature { return s }
+
+func verifAln(t *testing.T, id string, cols ...string) *alignment.Seq {
+	b := make([][]alphabet.Letter, len(cols))
+	for i, c := range cols {
+		b[i] = []alphabet.Letter(c)
+	}
+	a, err := alignment.NewSeq(id, []string{"r0", "r1"}, b, alphabet.DNA, seq.DefaultConsensus)
+	if err != nil {
+		t.Fatal(err)
+	}
+	return a
+}
+
+func verifQAln(t *testing.T, id string, cols ...string) *alignment.QSeq {
+	b := make([][]alphabet.QLetter, len(cols))
+	for i, c := range cols {
+		for _, l := range []byte(c) {
+			b[i] = append(b[i], alphabet.QLetter{L: alphabet.Letter(l), Q: 30})
+		}
+	}
+	a, err := alignment.NewQSeq(id, []string{"r0", "r1"}, b, alphabet.DNA, alphabet.Sanger, seq.DefaultQConsensus)
+	if err != nil {
+		t.Fatal(err)
+	}
+	return a
+}
+
+func verifCols(s interface{}) string {
+	var out string
+	switch a := s.(type) {
+	case *alignment.Seq:
+		for _, c := range a.Seq {
+			out += string(alphabet.LettersToBytes(c)) + " "
+		}
+	case *alignment.QSeq:
+		for _, c := range a.Seq {
+			for _, l := range c {
+				out += string(byte(l.L))
+			}
+			out += " "
+		}
+	}
+	return out
+}
+
+func verifOverwrite(s interface{}) {
+	switch a := s.(type) {
+	case *alignment.Seq:
+		for _, c := range a.Seq {
+			for r := range c {
+				c[r] = 'X'
+			}
+		}
+	case *alignment.QSeq:
+		for _, c := range a.Seq {
+			for r := range c {
+				c[r] = alphabet.QLetter{L: 'X', Q: 1}
+			}
+		}
+	}
+}
+
+func TestVerifBounded_C06_Columns(t *testing.T) {
+	cases := 0
+	mk := func(q bool, srcCols, dstCols []string) (src, dst interface{}) {
+		if q {
+			return verifQAln(t, "src", srcCols...), verifQAln(t, "dst", dstCols...)
+		}
+		return verifAln(t, "src", srcCols...), verifAln(t, "dst", dstCols...)
+	}
+	for _, q := range []bool{false, true} {
+		all := []string{"aa", "cc", "gg", "tt", "ac"}
+		// Truncate over every range
+		for start := 0; start <= len(all); start++ {
+			for end := start; end <= len(all); end++ {
+				cases++
+				src, dst := mk(q, all, []string{"nn"})
+				before := verifCols(src)
+				if err := sequtils.Truncate(dst.(sequtils.Sliceable), src.(sequtils.Sliceable), start, end); err != nil {
+					t.Fatal(err)
+				}
+				want := ""
+				for _, c := range all[start:end] {
+					want += c + " "
+				}
+				if got := verifCols(dst); got != want {
+					t.Fatalf("Truncate(%d,%d) = %q, want %q", start, end, got, want)
+				}
+				verifOverwrite(dst)
+				if after := verifCols(src); after != before {
+					t.Fatalf("Truncate(dst, src, %d, %d) (qualities %v): overwriting the result changed the source: %q -> %q", start, end, q, before, after)
+				}
+			}
+		}
+		// Stitch over one or two intervals
+		for _, fs := range []verifColSet{{verifColFeat{0, 1}, verifColFeat{2, 4}}, {verifColFeat{1, 5}}, {verifColFeat{3, 4}, verifColFeat{0, 2}}} {
+			cases++
+			src, dst := mk(q, all, []string{"nn"})
+			before := verifCols(src)
+			if err := sequtils.Stitch(dst.(sequtils.Sliceable), src.(sequtils.Sliceable), fs); err != nil {
+				t.Fatal(err)
+			}
+			verifOverwrite(dst)
+			if after := verifCols(src); after != before {
+				t.Fatalf("Stitch(dst, src, %v) (qualities %v): overwriting the result changed the source: %q -> %q", fs, q, before, after)
+			}
+		}
+		// Join at either end
+		for _, where := range []int{seq.Start, seq.End} {
+			cases++
+			src, dst := mk(q, all[2:], all[:2])
+			before := verifCols(src)
+			if err := sequtils.Join(dst.(sequtils.Joinable), src.(sequtils.Joinable), where); err != nil {
+				t.Fatal(err)
+			}
+			if got, want := verifCols(dst), map[int]string{seq.Start: "gg tt ac aa cc ", seq.End: "aa cc gg tt ac "}[where]; got != want {
+				t.Fatalf("Join(%d) = %q, want %q", where, got, want)
+			}
+			verifOverwrite(dst)
+			if after := verifCols(src); after != before {
+				t.Fatalf("Join(dst, src, %d) (qualities %v): overwriting the result changed the source: %q -> %q", where, q, before, after)
+			}
+		}
+	}
+	fmt.Printf("BOUNDED name=C06.columns cases=%d nontrivial=%d exhaustive=true domain=%q\n", cases, cases, "2-row column-stored alignments of 5 columns with and without qualities: every Truncate range, 3 Stitch feature sets, Join at both ends; the result is overwritten and the source compared with its former self")
+}
